@@ -600,40 +600,14 @@ fn api_events() -> Vec<ApiEv> {
     v
 }
 
-struct ApiNode {
-    docs: iroh_docs::protocol::Docs,
-    author: iroh_docs::AuthorId,
-    _blobs: iroh_blobs::store::mem::MemStore,
-}
-
-async fn api_node() -> anyhow::Result<ApiNode> {
-    use iroh::endpoint::presets;
-    let ep = iroh::Endpoint::builder(presets::Minimal)
-        .secret_key(iroh::SecretKey::from_bytes(&[0x37; 32]))
-        .bind()
-        .await
-        .map_err(|e| anyhow::anyhow!("bind: {e}"))?;
-    let gossip = iroh_gossip::net::Gossip::builder().spawn(ep.clone());
-    let blobs = iroh_blobs::store::mem::MemStore::new();
-    let docs = iroh_docs::protocol::Docs::memory().spawn(ep, (*blobs).clone(), gossip).await?;
-    let author = docs.api().author_create().await?;
-    Ok(ApiNode { docs, author, _blobs: blobs })
-}
+use super::apifam::{api_node, ApiNode};
 
 /// One history on fresh documents (namespace secrets derived from `salt`) of a shared node.
 async fn exec_api(node: &ApiNode, hist: &[ApiEv], salt: u64) -> Bad {
     use n0_future::StreamExt;
     let api = node.docs.api();
     let mut bad: Bad = vec![];
-    let secrets: Vec<iroh_docs::NamespaceSecret> = (0..2u8)
-        .map(|d| {
-            let mut b = [0u8; 32];
-            b[..8].copy_from_slice(&salt.to_le_bytes());
-            b[8] = d;
-            b[9] = 0xA7;
-            iroh_docs::NamespaceSecret::from_bytes(&b)
-        })
-        .collect();
+    let secrets: Vec<iroh_docs::NamespaceSecret> = (0..2u8).map(|d| super::apifam::secret(salt, d)).collect();
     let ids: Vec<iroh_docs::NamespaceId> = secrets.iter().map(|s| s.id()).collect();
     let mut cap: [Option<Cap>; 2] = [None, None];
     let mut handles: [Vec<iroh_docs::api::Doc>; 2] = [vec![], vec![]];
@@ -745,8 +719,7 @@ fn run_api_family(ctx: &Ctx, report: &mut Report) {
             let bad = exec_api(&node, &hist, ord).await;
             out.push((ord, hist, bad));
         }
-        use iroh::protocol::ProtocolHandler;
-        node.docs.shutdown().await;
+        super::apifam::shutdown(&node).await;
         Ok(out)
     });
     match results {
@@ -823,8 +796,7 @@ fn replay(case: &Value) -> anyhow::Result<(bool, String)> {
         let bad: anyhow::Result<Bad> = block_on(async {
             let node = api_node().await?;
             let b = exec_api(&node, &hist, salt).await;
-            use iroh::protocol::ProtocolHandler;
-        node.docs.shutdown().await;
+            super::apifam::shutdown(&node).await;
             Ok(b)
         });
         let bad = bad?;
